@@ -12,7 +12,7 @@ DESCRIPTION = {
              "reference checks the response against the offer and the effective parameters of both ends per direction (compressor window <= decompressor window, "
              "decompressor resets => compressor resets), and three messages per direction are pushed through the two PMCE objects. (b) Hypothesis traffic through real "
              "client/server connections for deflate (any lattice point), bzip2 and brotli: 2-6 messages per direction (compressible, random, empty, >=128KiB, text/binary, "
-             "doNotCompress), fragmentation, adversarial read schedules; oracle as C01 plus: doNotCompress messages travel with RSV1 clear and raw payload, RSV1 only on "
+             "doNotCompress), fragmentation, applyMask on/off, adversarial read schedules; oracle as C01 plus: doNotCompress messages travel with RSV1 clear and raw payload, RSV1 only on "
              "first frames, an independent raw-deflate inflater reproduces every compressed deflate message from the wire. (c) Negative handshakes: responses naming an "
              "unknown extension, repeating a compression extension, with unknown/duplicated/out-of-range/valued-flag parameters or declined by the accept policy must make "
              "the client drop without opening; malformed offers make the server refuse or ignore them. (d) Enumerated raw frames into an endpoint that negotiated "
@@ -336,8 +336,9 @@ def traffic_strategy():
         except ImportError:
             pass
         p = draw(st.one_of(*exts))
-        return {"seed": draw(st.integers(0, 1 << 20)), "copts": {"autoFragmentSize": draw(st.sampled_from([0, 0, 100]))},
-                "sopts": {"autoFragmentSize": draw(st.sampled_from([0, 0, 100]))}, "compress": False, "pmce": p,
+        nomask = draw(st.integers(0, 3)) == 0        # applyMask=False on both ends (the non-default "don't XOR" mode)
+        return {"seed": draw(st.integers(0, 1 << 20)), "copts": dict({"autoFragmentSize": draw(st.sampled_from([0, 0, 100]))}, **({"applyMask": False} if nomask else {})),
+                "sopts": dict({"autoFragmentSize": draw(st.sampled_from([0, 0, 100]))}, **({"applyMask": False} if nomask else {})), "compress": False, "pmce": p,
                 "msgs": [draw(st.lists(msg(), min_size=2, max_size=6)), draw(st.lists(msg(), min_size=2, max_size=6))],
                 "order": draw(st.lists(st.integers(0, 1), max_size=10)), "schedule": draw(st.lists(st.tuples(st.integers(0, 1), st.one_of(st.none(), st.integers(1, 5000))), max_size=12))}
     return case()
@@ -387,6 +388,10 @@ def check_traffic(case):
                 probs = ref6455.wire_problems(frames, idx == 0, compression=True)
                 if probs:
                     raise Violation(key + "|wire-malformed", repr(probs[:3]), case)
+                if not (case["copts"] if idx == 0 else case["sopts"]).get("applyMask", True):
+                    for f in frames:
+                        if f.masked:
+                            f.payload = ref6455.xor_mask(f.payload, f.mask)   # payload travelled un-XORed
                 inflater = None
                 if case["pmce"]["ext"] == "deflate":
                     inflater = ref6455.RawInflater(15, False)
@@ -417,7 +422,7 @@ def traffic(col, seed, n):
         nondefault = p["ext"] != "deflate" or p["offer"] != (True, True, False, 0) or any(x not in (None, False, 0) for x in p["accept"]) or any(x is not None for x in p["raccept"])
         col.case(True, dig=c, cls=["traffic/" + p["ext"]] + (["traffic/non-default-params"] if nondefault else []) +
                  (["traffic/large"] if any(m["len"] >= 65536 for ms in c["msgs"] for m in ms) else []) +
-                 (["traffic/doNotCompress"] if any(m.get("dnc") for ms in c["msgs"] for m in ms) else []),
+                 (["traffic/doNotCompress"] if any(m.get("dnc") for ms in c["msgs"] for m in ms) else []) + (["traffic/applyMask=False"] if c["copts"].get("applyMask") is False else []),
                  sample={"pmce": p, "client_msgs": [(m["len"], m["api"], m["kind"], m.get("dnc")) for m in c["msgs"][0]]})
     run_hypothesis(col, "traffic", traffic_strategy(), body, n, seed)
 
